@@ -52,6 +52,44 @@ def gen_script(rng):
     return '\n'.join(L) + '\n'
 
 
+def gen_inflight_script(rng):
+    """The dropped write is STILL RUNNING (its append is held back for 400 ms) while the client goes on: a write is
+    acknowledged behind it, another one fails, the blob may be closed -- and only then do the bytes of the dropped write
+    land. All-or-nothing for the dropped write, everything acknowledged stays readable, every blob parses."""
+    g = Gen(rng, queries=(), maint=0.2, restart=0.0, deletes=0.1, bg=0.0, nops=rng.randrange(2, 7), dup=1, metas=False, runtime='ct')
+    L = g.build().strip().split('\n')
+    qs = ['R %s' % k for k in g.keys]
+    if rng.random() < 0.4:
+        L += ['close', 'open']      # the active blob is re-opened in append mode: bytes land in completion order
+    L += qs
+    key = rng.choice(g.keys)
+    L.append('fail append .blob 0 delay:400')
+    L.append('cancel 2 W %s %d - %d 9001' % (key, rng.choice([5, 7, 9, 12]), rng.choice([5, 5000, 100000])))
+    seed = 9100
+    for _ in range(rng.randrange(1, 3)):
+        x = rng.random()
+        seed += 1
+        if x < 0.5:
+            L.append('W %s %d - 5 %d' % (rng.choice(g.keys), rng.choice([5, 7, 9]), seed))
+        elif x < 0.8:
+            L.append('fail append .blob 0 %s' % rng.choice(['EIO', 'ENOSPC']))
+            L.append('W %s %d - 40 %d' % (rng.choice(g.keys), rng.choice([5, 7, 9]), seed))
+            L.append('clearfail')
+        else:
+            L.append(rng.choice(['fsync', 'D %s 8 - 0' % rng.choice(g.keys)]))
+    L += ['sleep 600', 'clearfail', 'quiesce']
+    L += qs + ['counts']
+    for _ in range(rng.randrange(1, 3)):
+        seed += 1
+        L.append('W %s %d - 5 %d' % (rng.choice(g.keys), rng.choice([5, 7, 9, 12, 15]), seed))
+    L += qs
+    L += ['close', 'open'] + qs + ['counts', 'close', 'ls']
+    L += ['tool validate_blob %d' % i for i in range(5)]
+    L += ['rmindex %d' % i for i in range(5)]
+    L += ['open'] + qs
+    return '\n'.join(L) + '\n'
+
+
 def gen_closed_delete_script(rng):
     """A delete of a key that lives in two or three CLOSED, indexed blobs (and not in the active one), dropped after k
     polls while the marker append of one of them is delayed: some closed blobs have their marker, others do not, and
@@ -119,7 +157,7 @@ def gen_offload_restore_script(rng):
 
 def gen(tier, rng):
     n = 220 if tier == 'quick' else 5000
-    return [('cancel%05d' % i, gen_script(rng)) for i in range(n)] + [('cdel%05d' % i, gen_closed_delete_script(rng)) for i in range(n // 4)] + [('offrest%05d' % i, gen_offload_restore_script(rng)) for i in range(n // 10)]
+    return [('cancel%05d' % i, gen_script(rng)) for i in range(n)] + [('cdel%05d' % i, gen_closed_delete_script(rng)) for i in range(n // 4)] + [('offrest%05d' % i, gen_offload_restore_script(rng)) for i in range(n // 10)] + [('inflight%05d' % i, gen_inflight_script(rng)) for i in range(n // 8)]
 
 
 def replay(lines, io, mode):
@@ -215,7 +253,7 @@ def oracle(lines, io, spec=None):
     # later operations succeed, every blob parses completely
     for i in range(ci + 1, min(len(lines), len(io))):
         t = lines[i].split()[0]
-        if t == 'W' and io[i] != 'W ok' and not f2:
+        if t == 'W' and io[i] != 'W ok' and not f2 and not lines[i - 1].startswith('fail append'):
             fails.append('line %d `%s` after the cancellation: %s' % (i, lines[i], io[i]))
         if t == 'open' and io[i] != 'open ok':
             fails.append('line %d: init failed after the cancellation: %s' % (i, io[i]))
